@@ -63,7 +63,7 @@ def labelPool (n : Nat) : List Label :=
   let greeks : List Label := ['x', 'ρ', 'σ', 'π', Char.ofNat 0x1D711, 'é'].map .greek
   -- texts, among them two that print alike (`x y` and `xy`: printing drops the blanks), proper prefixes of one another (a comparison that stops at the padding must not confuse them) and
   -- a one-character label that is the first character of a text
-  let strs : List Label := ["foo", "hello", "αβ", "x y", "xy", "abcdefgh", "fo", "foobar", "abcdefg"].map (fun s => .str (Lb.pad8 s.toList)) ++
+  let strs : List Label := ["foo", "hello", "αβ", "x y", "xy", "abcdefgh", "fo", "foobar", "abcdefg", "привет", "日本語"].map (fun s => .str (Lb.pad8 s.toList)) ++
     [Lb.Label.greek 'f']
   alphas ++ greeks ++ strs
 
